@@ -33,7 +33,7 @@ import (
 func init() {
 	fw.Register(&fw.Check{
 		ID:          "C19",
-		Rule:        "cases: hostile inputs to every listed entry point, each call journaled (entry point + raw input) before it is made and run in a worker subprocess under ulimit -v with a per-case watchdog; oracle: any recovered panic, any worker death (fatal error: stack overflow / out of memory / concurrent map / checkptr, signal) or a watchdog expiry is a violation, every returned value or error is 'held'. Inputs: (a) structure-aware corruption of valid operations (4 types, re-signed so that corrupted deltas pass signature checks), DIDs, JWS, JWKs, patches (8 actions) and documents - at every JSON position each of 13 hostile replacement values, member deletion / duplication; (b) RFC 6902 hostility (negative / huge / leading-zero / non-numeric indices for every kind, test without value, null containers, from = path, path inside from, root pointers); (c) valid operations of an unexpected type for each entry point; (d) arbitrary byte strings and truncations of valid inputs at every offset; (e) separator floods, deep nesting, non-UTF-8. Two protocol configurations (shipped v1.0 and a permissive 64 KiB one). distinct = (entry point, input class, outcome kind).",
+		Rule:        "cases: hostile inputs to every listed entry point, each call journaled (entry point + raw input) before it is made and run in a worker subprocess under ulimit -v with a per-case watchdog; oracle: any recovered panic, any worker death (fatal error: stack overflow / out of memory / concurrent map / checkptr, signal) or a watchdog expiry is a violation, every returned value or error is 'held'. Inputs: (a) structure-aware corruption of valid operations (4 types, re-signed so that corrupted deltas pass signature checks), DIDs, JWS, JWKs, patches (8 actions) and documents - at every JSON position each of 13 hostile replacement values, member deletion / duplication; (b) RFC 6902 hostility (negative / huge / leading-zero / non-numeric indices for every kind, test without value, null containers, from = path, path inside from, root pointers); (c) valid operations of an unexpected type for each entry point; (d) arbitrary byte strings and truncations of valid inputs at every offset; (e) separator floods, deep nesting, non-UTF-8; (f) JSON lexer sweep: every byte value 0..255 after a backslash, raw inside a string, inside \\u escapes and surrogate pairs, inside numbers and literals, in member-name / value / array / top-level position, terminated and unterminated. Two protocol configurations (shipped v1.0 and a permissive 64 KiB one). distinct = (entry point, input class, outcome kind).",
 		Assumptions: []string{"inputs capped at 64 KiB; the canonicalizer's cost is quadratic in nesting depth (64 Ki levels ~ 5 s), so a 120 s watchdog per small case is two orders of magnitude above the measured worst case", "allocation bombs below the 8 GiB address-space limit are observations, not violations"},
 		Require: []string{"entry:Parser.Parse", "entry:Parser.ParseOperation(batch)", "entry:Parser.GetRevealValue", "entry:Parser.GetCommitment", "entry:Parser.ParseDID",
 			"entry:DocumentHandler.ResolveDocument", "entry:DocumentHandler.ProcessOperation", "entry:VDR.Read", "entry:jwsutil.ParseJWS", "entry:jwsutil.VerifyJWS", "entry:jwsutil.VerifySignature",
@@ -387,6 +387,52 @@ func runC19(r *fw.Runner) {
 				c.Sig("random", n)
 				e.feedBytes(c, "random-bytes", bs)
 				e.feedPatch(c, "random-bytes", bs)
+			}
+		})
+	}
+	// every byte value after a backslash, raw inside a string, after \u and inside a number, in member-name and value position:
+	// the JSON lexers of the canonicalizer and of everything that takes raw JSON
+	for _, pos := range []string{"value", "name", "array", "top"} {
+		pos := pos
+		r.Case("json-lexer-sweep", func(c *fw.Case) {
+			e := get(c)
+			wrap := func(str []byte) []byte {
+				q := append(append([]byte{'"'}, str...), '"')
+				switch pos {
+				case "value":
+					return append(append([]byte(`{"a":`), q...), '}')
+				case "name":
+					return append(append([]byte(`{`), q...), []byte(`:1}`)...)
+				case "array":
+					return append(append([]byte(`[1,`), q...), ']')
+				}
+				return q
+			}
+			var inputs [][]byte
+			for b := 0; b < 256; b++ {
+				inputs = append(inputs, wrap([]byte{'x', '\\', byte(b), 'y'}), wrap([]byte{'\\', byte(b)}), wrap([]byte{'x', byte(b), 'y'}), wrap([]byte{byte(b)}),
+					wrap([]byte{'\\', 'u', byte(b), '0', '4', '1'}), wrap([]byte{'\\', 'u', '0', '0', '4', byte(b)}), wrap([]byte{'\\', 'u', 'd', '8', '0', '0', '\\', byte(b)}),
+					wrap([]byte{'\\', 'u', 'd', '8', '0', '0', '\\', 'u', 'd', byte(b), '0', '0'}))
+				// unterminated variants and number position
+				inputs = append(inputs, []byte{'{', '"', 'a', '"', ':', '"', '\\', byte(b)}, []byte{'[', '1', byte(b), '2', ']'}, []byte{'[', '-', byte(b), ']'}, []byte{'[', '1', 'e', byte(b), '1', ']'},
+					[]byte{'[', '1', '.', byte(b), ']'}, []byte{'[', 't', 'r', 'u', byte(b), ']'})
+			}
+			c.Sig("lexer-sweep", pos)
+			c.Count("json-lexer-sweep-inputs", len(inputs))
+			for _, in := range inputs {
+				in := in
+				c19Call(c, "canonicalizer.MarshalCanonical(bytes)", "json-lexer-sweep", in, func() { canonicalizer.MarshalCanonical(in) })
+				c19Call(c, "hashing", "json-lexer-sweep", in, func() {
+					hashing.CalculateModelMultihash(in, 18)
+					hashing.IsValidModelMultihash(in, "EiAAAAAAAAAAAAAAAAAAAAAAAAAAAAAAAAAAAAAAAAAAAA")
+				})
+				c19Call(c, "patch.FromBytes", "json-lexer-sweep", in, func() { patch.FromBytes(in) })
+				c19Call(c, "jwsutil.JWK.UnmarshalJSON", "json-lexer-sweep", in, func() { var k jwsutil.JWK; k.UnmarshalJSON(in) })
+			}
+			if pos == "value" {
+				for _, in := range inputs[:512] {
+					e.feedBytes(c, "json-lexer-sweep", in)
+				}
 			}
 		})
 	}
